@@ -695,10 +695,13 @@ func (c *Client) Do(ctx context.Context, q Query) (err error) {
 				}
 				ce.Write(zap.Any("columns", info))
 			}
+			// Sending a copy: result is reused by next column info block,
+			// which can be decoded while sender is still reading this one.
+			info := append(proto.ColInfoInput(nil), result...)
 			select {
 			case <-ctx.Done():
 				return ctx.Err()
-			case colInfo <- result:
+			case colInfo <- info:
 				return nil
 			default:
 				// Column info is already delivered and nobody will receive
